@@ -262,7 +262,7 @@ theorem ends_operand (cpp : Bool) : ∀ e : PExpr, S1 e = true → ∀ (pre : Li
 
 /-- context in which an operand may start: not behind a name, `)` or `]`; not behind `) (` -/
 def CtxOK (pre : List Tok) : Prop :=
-  (∀ p, pre.head? = some p → p.isName = false ∧ p ≠ Tok.rp ∧ p ≠ Tok.rb) ∧
+  (∀ p, pre.head? = some p → p.isName = false ∧ p ≠ Tok.rp ∧ p ≠ Tok.rb ∧ prevSet p = true ∧ p.isIncDec = false) ∧
   (pre.head? = some Tok.lp → pre.tail.head? ≠ some Tok.rp)
 
 /-- tokens that may follow an operand without being absorbed by the operand level -/
@@ -376,7 +376,7 @@ theorem ctx_not_call (cpp : Bool) (pre : List Tok) (cur : List Tok) (hc : CtxOK 
   | nil => rfl
   | cons p pr =>
     have := hc.1 p rfl
-    simp [this.1, this.2.1, this.2.2]
+    simp [this.1, this.2.1, this.2.2.1]
 
 /-- compilePrecedence3 on `( b ) rest` when the parenthesis is no cast, the context is an operand context and
 compileExpression handles `b` -/
@@ -413,19 +413,97 @@ theorem opOK_spec {s : Wire.Str} (h : opOK s = true) :
   obtain ⟨⟨⟨⟨⟨⟨⟨⟨h1, h2⟩, h3⟩, h4⟩, h5⟩, h6⟩, h7⟩, h8⟩, h9⟩ := h
   exact ⟨h1, h2, h3, h4, h5, h6, h7, h8, h9⟩
 
+theorem plainPrefix_cases {s : Wire.Str} (h : plainPrefix s = true) : s = ['-'] ∨ s = ['!'] ∨ s = ['~'] ∨ s = ['*'] ∨ s = ['&'] := by
+  simp only [plainPrefix, Bool.or_eq_true, decide_eq_true_eq] at h
+  rcases h with (((h | h) | h) | h) | h <;> simp [h]
+
+theorem headOK_ne_colon {t : Tok} (h : headOK t = true) : t ≠ Tok.op [':'] := by
+  intro hc; subst hc; simp [headOK, plainPrefix] at h
+
+theorem opStart_head {l : List Tok} (h : opStart l = true) : ∃ t r, l = t :: r ∧ headOK t = true := by
+  cases l with
+  | nil => simp [opStart] at h
+  | cons t r =>
+    refine ⟨t, r, rfl, ?_⟩
+    cases t <;> simp_all [opStart, headOK]
+
+theorem isQualifier_opStart : ∀ l : List Tok, opStart l = true → isQualifier l = false := by
+  intro l
+  induction l with
+  | nil => intro h; simp [opStart] at h
+  | cons t r ih =>
+    intro h
+    cases t with
+    | op s =>
+      simp only [opStart, Bool.and_eq_true] at h
+      unfold isQualifier
+      split
+      · exact ih h.2
+      · rcases plainPrefix_cases h.1 with rfl | rfl | rfl | rfl | rfl <;> decide
+    | var s => rfl
+    | num s => rfl
+    | lp => rfl
+    | fn s => simp [opStart] at h
+    | ty s => simp [opStart] at h
+    | kw s => simp [opStart] at h
+    | rp => simp [opStart] at h
+    | lb => simp [opStart] at h
+    | rb => simp [opStart] at h
+
+theorem starGo_opStart : ∀ (l : List Tok), opStart l = true → ∀ k, starGo l k = none := by
+  intro l
+  induction l with
+  | nil => intro h; simp [opStart] at h
+  | cons t r ih =>
+    intro h k
+    cases r with
+    | nil =>
+      cases t <;> simp_all [opStart, starGo, isStarStop]
+    | cons t' r' =>
+      cases t with
+      | op s =>
+        simp only [opStart, Bool.and_eq_true] at h
+        simp only [starGo]
+        split
+        · exact ih h.2 _
+        · rcases plainPrefix_cases h.1 with rfl | rfl | rfl | rfl | rfl <;> simp [isStarStop]
+      | var s => simp [starGo, isStarStop]
+      | num s => simp [starGo, isStarStop]
+      | lp => simp [starGo, isStarStop]
+      | fn s => simp [opStart] at h
+      | ty s => simp [opStart] at h
+      | kw s => simp [opStart] at h
+      | rp => simp [opStart] at h
+      | lb => simp [opStart] at h
+      | rb => simp [opStart] at h
+
+theorem starLook_opStart (l : List Tok) (h : opStart l = true) : starLook l = none := by
+  cases l with
+  | nil => rfl
+  | cons t r =>
+    simp only [starLook]
+    split
+    · exact starGo_opStart _ h 1
+    · rfl
+
 /-- a usable guard lets the operator through when an operand follows -/
-theorem guard_take (cpp : Bool) (g : Guard) (s : Wire.Str) (t : Tok) (r : List Tok)
-    (hg : g.binary = true) (hs : opOK s = true) (ht : headOK t = true) :
-    g.eval cpp s (t :: r) = .take s := by
-  have hq : isQualifier (Tok.op s :: t :: r) = false := by
+theorem guard_take (cpp : Bool) (g : Guard) (s : Wire.Str) (l : List Tok)
+    (hg : g.binary = true) (hs : opOK s = true) (hl : opStart l = true) :
+    g.eval cpp s l = .take s := by
+  have hq : isQualifier (Tok.op s :: l) = false := by
     have hs := opOK_spec hs
     unfold isQualifier
     split
-    · cases t <;> simp_all [isQualifier, headOK]
+    · exact isQualifier_opStart l hl
     · simp only [Bool.or_eq_false_iff, decide_eq_false_iff_not]
       exact ⟨hs.2.2.2.2.2.1, hs.2.2.1⟩
-  have hsl : starLook (t :: r) = none := by
-    cases t <;> simp_all [starLook, headOK]
+  have hsl : starLook l = none := starLook_opStart l hl
+  obtain ⟨t, r, rfl, ht⟩ := opStart_head hl
+  have hne : ∀ x : Tok, headOK x = true → x ≠ Tok.op [','] ∧ x ≠ Tok.rp ∧ x ≠ Tok.op ['}'] := by
+    intro x hx
+    cases x <;> simp_all [headOK]
+    rename_i s'
+    rcases plainPrefix_cases hx with rfl | rfl | rfl | rfl | rfl <;> decide
   cases g with
   | always => rfl
   | unusedTok => rfl
@@ -433,13 +511,22 @@ theorem guard_take (cpp : Bool) (g : Guard) (s : Wire.Str) (t : Tok) (r : List T
   | mul => simp [Guard.eval, hq, hsl]
   | amp =>
     simp only [Guard.eval, hq, Bool.false_eq_true, if_false]
-    cases t <;> simp_all [headOK]
+    by_cases hamp : t = Tok.op ['&']
+    · subst hamp
+      simp only [opStart, Bool.and_eq_true] at hl
+      obtain ⟨t2, r2, rfl, ht2⟩ := opStart_head hl.2
+      have := hne t2 ht2
+      simp [this.1, this.2.1]
+    · have := hne t ht
+      simp [hamp, this.1, this.2.1]
   | ampamp =>
     simp only [Guard.eval, hq, Bool.false_eq_true, if_false]
-    cases t <;> simp_all [headOK]
+    have := hne t ht
+    simp [this.1, this.2.1]
   | commaBrace =>
     simp only [Guard.eval]
-    cases t <;> simp_all [headOK]
+    have := hne t ht
+    simp [this.2.2]
   | dotStar => simp [Guard.binary] at hg
 
 /-! ### consequences of `Ladder.WF` -/
@@ -570,7 +657,7 @@ def NoRA (cpp : Bool) (lv : Level) (rest : List Tok) : Prop :=
 def Claim (L : Ladder) (cpp : Bool) (e : PExpr) (ls : List Level) : Prop :=
   ∀ (N a d : Nat) (pre rest : List Tok) (stk : List Entry),
     (print e ++ rest).length ≤ N → d + need e ≤ L.maxDepth → CtxOK pre →
-    (pre.head? = some Tok.lp → skipDeclGo (print e ++ rest) 0 = some 0) →
+    (pre.head? = some Tok.lp → declHead (print e ++ rest) = true) →
     (rest.head? = some (Tok.op [':']) → topFree e = true) →
     RestOK rest →
     (∀ lv ∈ ls.tail, LvStop cpp lv 0 rest) →
@@ -636,7 +723,7 @@ theorem claim_var (L : Ladder) (cpp : Bool) (s : Wire.Str) : Claim L cpp (var s)
   rw [ladder_nil]
   simp only [K, primN, done, print, List.reverse_cons, List.reverse_nil, List.nil_append, List.singleton_append, rootOff, toAst, Nat.add_zero]
   apply p3_of_term
-  · exact term_var _ d pre s rest stk a hr hc hdecl
+  · exact term_var _ d pre s rest stk a hr hc (fun h => by have := hdecl h; simpa [declHead, print, Tok.isName] using this)
   · simp
   · exact hr
   · exact endsOp_print cpp (var s) rfl pre
@@ -668,7 +755,7 @@ theorem lvstop_nonop (cpp : Bool) (lv : Level) (a : Nat) (t : Tok) (r : List Tok
     · intro hc; simp only [List.head?_cons, Option.some.injEq] at hc; exact absurd hc (h _)
 
 theorem claim_paren (L : Ladder) (cpp : Bool) (e : PExpr) (hs : S1 e = true)
-    (hdk : skipDeclGo (print e ++ [Tok.rp]) 0 = some 0)
+    (hdk : declHead (print e ++ [Tok.rp]) = true)
     (ih : Claim L cpp e L.levels) : Claim L cpp (paren e) [] := by
   intro N a d pre rest stk hN hd hc _ _ hr _ _
   rw [ladder_nil]
@@ -687,14 +774,17 @@ theorem claim_paren (L : Ladder) (cpp : Bool) (e : PExpr) (hs : S1 e = true)
     simp only
     have hc' : CtxOK (Tok.lp :: pre) := by
       constructor
-      · intro p hp'; simp only [List.head?_cons, Option.some.injEq] at hp'; subst hp'; simp [Tok.isName]
+      · intro p hp'; simp only [List.head?_cons, Option.some.injEq] at hp'; subst hp'; simp [Tok.isName, prevSet, Tok.isIncDec]
       · intro _
         simp only [List.tail_cons]
         intro hrp
         have := hc.1 Tok.rp hrp
         exact this.2.1 rfl
     have h1 := ih (print e ++ Tok.rp :: rest).length a d (Tok.lp :: pre) (Tok.rp :: rest) stk (Nat.le_refl _) hd hc'
-      (fun _ => by rw [skipDeclGo_rp]; exact hdk)
+      (fun _ => by
+        rw [hp] at hdk ⊢
+        simp only [List.cons_append, declHead] at hdk ⊢
+        rw [← List.cons_append, skipDeclGo_rp]; exact hdk)
       (fun h => by simp at h)
       (fun t h => by simp only [List.head?_cons, Option.some.injEq] at h; subst h; rfl)
       (fun lv _ => lvstop_nonop cpp lv 0 Tok.rp rest (by simp))
@@ -712,10 +802,25 @@ theorem claim_paren (L : Ladder) (cpp : Bool) (e : PExpr) (hs : S1 e = true)
   have : pre.length + 1 + e.rootOff = pre.length + (1 + e.rootOff) := by omega
   rw [this]
 
-theorem ctxOK_op (s : Wire.Str) (pre : List Tok) : CtxOK (Tok.op s :: pre) := by
+theorem ctxOK_op (s : Wire.Str) (pre : List Tok) (h1 : prevSet (Tok.op s) = true) (h2 : isIncDecStr s = false) :
+    CtxOK (Tok.op s :: pre) := by
   constructor
-  · intro p hp; simp only [List.head?_cons, Option.some.injEq] at hp; subst hp; simp [Tok.isName]
+  · intro p hp; simp only [List.head?_cons, Option.some.injEq] at hp; subst hp; simp [Tok.isName, h1, Tok.isIncDec, h2]
   · intro h; simp at h
+
+theorem ctxOK_opOK {s : Wire.Str} (pre : List Tok) (h : opOK s = true) : CtxOK (Tok.op s :: pre) :=
+  ctxOK_op s pre (opOK_spec h).2.2.2.2.2.2.2.2 (opOK_spec h).2.2.2.1
+
+theorem ctxOK_quest (pre : List Tok) : CtxOK (Tok.op ['?'] :: pre) := ctxOK_op _ pre (by decide) (by decide)
+theorem ctxOK_colon (pre : List Tok) : CtxOK (Tok.op [':'] :: pre) := ctxOK_op _ pre (by decide) (by decide)
+
+theorem prefixUnary_of_ctx (cpp : Bool) (pre : List Tok) (t : Tok) (after : List Tok) (hc : CtxOK pre) :
+    isPrefixUnary cpp pre t after = true := by
+  cases pre with
+  | nil => rfl
+  | cons p pr =>
+    have := hc.1 p rfl
+    simp [isPrefixUnary, this.2.2.2.1, this.2.2.2.2]
 
 theorem entry_spec {L : Ladder} (hL : L.WF = true) {lv : Level} (hm : lv ∈ L.levels) {op : Wire.Str} {g : Guard}
     (hlook : lookupOp op lv.ops = some g) (hg : g.binary = true) :
@@ -765,7 +870,7 @@ theorem claim_bin_left {L : Ladder} (hL : L.WF = true) (cpp : Bool) (lv : Level)
   obtain ⟨t', r', hp, ht'⟩ := head_print r hsr
   -- the right operand, one level down and one callback deeper
   have h2 := ihr N a (d + 1) (Tok.op op :: ((print l).reverse ++ pre)) rest (⟨pre.length + rootOff l, toAst l⟩ :: stk)
-    (by simp only [List.length_append]; omega) (by omega) (ctxOK_op _ _) (fun h => by simp at h)
+    (by simp only [List.length_append]; omega) (by omega) (ctxOK_opOK _ hop) (fun h => by simp at h)
     (fun h => by
       have := hcol h
       simp only [topFree, Bool.and_eq_true] at this; exact this.2)
@@ -781,7 +886,7 @@ theorem claim_bin_left {L : Ladder} (hL : L.WF = true) (cpp : Bool) (lv : Level)
       op (Tok.op op) (print r ++ rest) rfl
       (by
         simp only [done, Level.step, hlook]
-        rw [hp]; exact guard_take cpp g op t' _ hg hop ht')
+        exact guard_take cpp g op _ hg hop (opStart_print r hsr rest))
       (by omega) (by simp [hp]) h2 (by simp only [done, List.length_cons, List.length_append]; omega)]
   simp only [done, combine2, St.pos, print, rootOff, toAst, List.reverse_append, List.reverse_cons, List.append_assoc,
     List.singleton_append, List.cons_append, List.nil_append, List.length_append, List.length_reverse]
@@ -818,7 +923,7 @@ theorem claim_bin_assign {L : Ladder} (hL : L.WF = true) (cpp : Bool) (lv : Leve
     at_entry L.maxDepth cpp (primN L cpp N) below hk d _ _ h1 (by simp only [done, List.length_append, List.length_cons]; omega)]
   obtain ⟨t', r', hp, ht'⟩ := head_print r hsr
   have h2 := ihr N (a + 1) (d + 1) (Tok.op op :: ((print l).reverse ++ pre)) rest (⟨pre.length + rootOff l, toAst l⟩ :: stk)
-    (by simp only [List.length_append]; omega) (by omega) (ctxOK_op _ _) (fun h => by simp at h)
+    (by simp only [List.length_append]; omega) (by omega) (ctxOK_opOK _ hop) (fun h => by simp at h)
     (fun h => by
       have := hcol h
       simp only [topFree, Bool.and_eq_true] at this; exact this.2)
@@ -832,7 +937,7 @@ theorem claim_bin_assign {L : Ladder} (hL : L.WF = true) (cpp : Bool) (lv : Leve
       op (Tok.op op) (print r ++ rest) rfl
       (by
         simp only [done, Level.step, hlook]
-        rw [hp]; exact guard_take cpp g op t' _ hg hop ht')
+        exact guard_take cpp g op _ hg hop (opStart_print r hsr rest))
       (by omega) (by simp [hp]) h2 (by simp only [done, List.length_cons, List.length_append]; omega)]
   simp only [done, combine2, St.pos, print, rootOff, toAst, List.reverse_append, List.reverse_cons, List.append_assoc,
     List.singleton_append, List.cons_append, List.nil_append, List.length_append, List.length_reverse, Nat.add_sub_cancel]
@@ -893,14 +998,14 @@ theorem claim_tern {L : Ladder} (hL : L.WF = true) (cpp : Bool) (lv : Level) (be
   -- else branch: two callbacks deeper
   have hE := ihe N 0 (d + 2) (Tok.op [':'] :: ((print t).reverse ++ (Tok.op ['?'] :: ((print c).reverse ++ pre)))) rest
     (⟨(Tok.op ['?'] :: ((print c).reverse ++ pre)).length + rootOff t, toAst t⟩ :: ⟨pre.length + rootOff c, toAst c⟩ :: stk)
-    (by simp only [List.length_append]; omega) (by omega) (ctxOK_op _ _) (fun h => by simp at h)
+    (by simp only [List.length_append]; omega) (by omega) (ctxOK_colon _) (fun h => by simp at h)
     (fun h => absurd h hnc) hr hbelow
     (fun lv'' below'' h _ => by simp only [List.cons.injEq] at h; rw [← h.1]; exact hnora)
   rw [ladder_cons_at _ _ _ below hk, K_stop _ _ _ below (d + 2) _ (hstop_lv _)] at hE
   -- middle operand: one callback deeper, state.assign = 0
   have hT := iht N 0 (d + 1) (Tok.op ['?'] :: ((print c).reverse ++ pre)) (Tok.op [':'] :: (print e ++ rest))
     (⟨pre.length + rootOff c, toAst c⟩ :: stk)
-    (by simp only [List.length_append, List.length_cons]; omega) (by omega) (ctxOK_op _ _) (fun h => by simp at h)
+    (by simp only [List.length_append, List.length_cons]; omega) (by omega) (ctxOK_quest _) (fun h => by simp at h)
     (fun _ => htf)
     (fun t' h => by simp only [List.head?_cons, Option.some.injEq] at h; subst h; exact restOK_colon)
     (fun lv' hm => lvstop_qc hL cpp (hbm lv' hm) (hbl lv' hm) _ (Or.inr rfl) _ 0)
@@ -918,12 +1023,69 @@ theorem claim_tern {L : Ladder} (hL : L.WF = true) (cpp : Bool) (lv : Level) (be
   rw [step_quest L.maxDepth cpp (primN L cpp N) below hk d
       (done c pre (Tok.op ['?'] :: (print t ++ Tok.op [':'] :: (print e ++ rest))) stk a) _
       (print t ++ Tok.op [':'] :: (print e ++ rest)) rfl (step_qc hL cpp hlvm _ (Or.inl rfl) _)
-      (by rw [hpt]; cases tt <;> simp_all [headOK]) (by omega) (by simp [hpt]) hT
+      (by rw [hpt]; simp only [List.cons_append, List.head?_cons, ne_eq, Option.some.injEq]; exact headOK_ne_colon htt) (by omega) (by simp [hpt]) hT
       (by simp only [done, List.length_cons, List.length_append]; omega)]
   simp only [done, combine2, St.pos, print, rootOff, toAst, List.reverse_append, List.reverse_cons, List.append_assoc,
     List.singleton_append, List.cons_append, List.nil_append, List.length_append, List.length_reverse, List.length_cons]
   have : (print c).length + pre.length = pre.length + (print c).length := by omega
   rw [this]
+
+theorem suffix_nil (L : Ladder) : Suffix L [] := ⟨L.levels, by simp⟩
+
+theorem plainPrefix_facts {s : Wire.Str} (h : plainPrefix s = true) :
+    isIncDecStr s = false ∧ s ≠ ['.','.','.'] ∧ s ≠ ['.'] ∧ s ≠ ['{'] ∧ s ≠ [':',':'] ∧ isPrefixOpStr s = true ∧
+      unopAlways s = false ∧ prevSet (Tok.op s) = true ∧ okOpStr s = true ∧ Tok.inAlphabet (Tok.op s) = true := by
+  rcases plainPrefix_cases h with rfl | rfl | rfl | rfl | rfl <;> decide
+
+/-- a prefix operator `- ! ~ * &` in operand position -/
+theorem claim_pre (L : Ladder) (cpp : Bool) (op : Wire.Str) (e : PExpr) (hop : plainPrefix op = true) (hs : S1 e = true)
+    (ih : Claim L cpp e []) : Claim L cpp (PExpr.pre op e) [] := by
+  intro N a d pre rest stk hN hd hc _ hcol hr _ _
+  obtain ⟨f1, f2, f3, f4, f5, f6, f7, f8, _, _⟩ := plainPrefix_facts hop
+  rw [ladder_nil]
+  simp only [K, primN]
+  have hlist : print (PExpr.pre op e) ++ rest = Tok.op op :: (print e ++ rest) := by simp [print]
+  rw [hlist] at hN ⊢
+  simp only [need] at hd
+  simp only [List.length_cons] at hN
+  obtain ⟨t', r', hp, _⟩ := head_print e hs
+  -- the operand, one callback deeper
+  have h2 := ih N a (d + 1) (Tok.op op :: pre) rest stk (by omega) (by omega) (ctxOK_op _ _ f8 f1) (fun h => by simp at h)
+    (fun h => by
+      have := hcol h
+      simp only [topFree, Bool.and_eq_true] at this; exact this.2)
+    hr (fun lv hm => by simp at hm) (fun lv below h _ => by simp at h)
+  rw [ladder_nil] at h2
+  simp only [K, primN] at h2
+  -- compilePrecedence2 does nothing at the operator token
+  rw [p3.eq_1]
+  simp only [if_true, p2]
+  have hterm : term L.declVarGuard d ⟨pre, Tok.op op :: (print e ++ rest), stk, a⟩ = .ok ⟨pre, Tok.op op :: (print e ++ rest), stk, a⟩ := by
+    unfold term; simp [f4, f5]
+  rw [hterm]
+  simp only [Nat.le_refl, if_true]
+  have hloop2 : loop2 L.maxDepth cpp L.declVarGuard (innerN L cpp N) d ⟨pre, Tok.op op :: (print e ++ rest), stk, a⟩ =
+      .ok ⟨pre, Tok.op op :: (print e ++ rest), stk, a⟩ := by
+    rw [loop2.eq_1]; simp [f1, f2, f3, f4]
+  rw [hloop2]
+  simp only [Nat.le_refl, if_true]
+  -- the loop of compilePrecedence3 takes it as a prefix operator
+  rw [p3.eq_1]
+  simp only [Bool.false_eq_true, if_false, f6, prefixUnary_of_ctx cpp pre _ _ hc, Bool.and_self, if_true]
+  have hsl : (if op = ['*'] then starLook (print e ++ rest) else none) = none := by
+    split
+    · exact starLook_opStart _ (opStart_print e hs rest)
+    · rfl
+  rw [hsl]
+  simp only [unopWith, show ¬ (d + 1 > L.maxDepth) by omega, if_false, St.next, St.pos]
+  have hne : (print e ++ rest).isEmpty = false := by rw [hp]; rfl
+  simp only [hne, Bool.false_eq_true, if_false, List.length_cons, show (print e ++ rest).length < (print e ++ rest).length + 1 by omega, if_true]
+  rw [h2]
+  simp only [done, combine1, f7, Bool.false_or, List.length_cons,
+    show pre.length < pre.length + 1 + rootOff e by omega, decide_true, if_true,
+    show rest.length < (print e ++ rest).length + 1 by simp only [List.length_append]; omega]
+  rw [p3loop_stop L.maxDepth cpp L.declVarGuard (innerN L cpp N) d _ hr (endsOp_print cpp e hs _)]
+  simp [print, rootOff, toAst]
 
 theorem gram_bin_skip (L : Ladder) (pp : Bool) (a0 : Level) (more : List Level) (op : Wire.Str) (l r : PExpr)
     (h : levelHas a0 op = false) : Gram L pp (a0 :: more) (bin op l r) = Gram L pp more (bin op l r) := by
@@ -992,7 +1154,13 @@ theorem main_claim {L : Ladder} (hL : L.WF = true) (cpp : Bool) : ∀ (e : PExpr
           (ihc hd.1.1 _ hsuf.tail hg.1.1) (iht hd.1.2 _ hsuf hg.1.2.2) (ihe hd.2 _ hsuf hg.2)
       · rw [gram_tern_skip L true a0 more c t e hk] at hg
         exact claim_descend L cpp _ a0 more (ihls hsuf.tail hg)
-  | pre op e _ => intro _ ls _ hg; simp [Gram] at hg
+  | pre op e ih =>
+    intro hd ls _ hg
+    simp only [declOK] at hd
+    simp only [Gram, Bool.and_eq_true] at hg
+    have h0 := claim_pre L cpp op e hg.1 (gram_S1 L true e _ hg.2) (ih hd [] (suffix_nil L) hg.2)
+    have := claim_lift L cpp _ [] h0 ls
+    simpa using this
   | post op e _ => intro _ ls _ hg; simp [Gram] at hg
   | cast ty k e _ => intro _ ls _ hg; simp [Gram] at hg
   | index a i _ _ => intro _ ls _ hg; simp [Gram] at hg
@@ -1080,7 +1248,10 @@ theorem alpha_print {L : Ladder} (hL : L.WF = true) (pp : Bool) : ∀ (e : PExpr
         | true => simp only [if_true, Bool.and_eq_true] at hg; exact iht _ hsuf hg.1.2.2
         | false => simp only [Bool.false_eq_true, if_false] at hg; exact iht _ (Suffix.refl L) hg.1.2
       simp [print, ihc _ hsuf.tail hg.1.1, ht, ihe _ hsuf hg.2, Tok.inAlphabet]
-  | pre op e _ => intro ls _ hg; simp [Gram] at hg
+  | pre op e ih =>
+    intro ls _ hg
+    simp only [Gram, Bool.and_eq_true] at hg
+    simp [print, ih _ (suffix_nil L) hg.2, (plainPrefix_facts hg.1).2.2.2.2.2.2.2.2.2]
   | post op e _ => intro ls _ hg; simp [Gram] at hg
   | cast ty k e _ => intro ls _ hg; simp [Gram] at hg
   | index a i _ _ => intro ls _ hg; simp [Gram] at hg
@@ -1245,7 +1416,10 @@ theorem gram_prep {L : Ladder} (hL : L.WF = true) : ∀ (e : PExpr) (ls : List L
         rw [hab] at ht
         rw [gram_down L true _ (by rw [topFree_prepE]; exact htf) _ above (wf_above_at hL hab hk)] at ht
         exact ht
-  | pre op e _ => intro ls _ hg; simp [Gram] at hg
+  | pre op e ih =>
+    intro ls _ hg
+    simp only [Gram, prepE, Bool.and_eq_true] at hg ⊢
+    exact ⟨hg.1, ih _ (suffix_nil L) hg.2⟩
   | post op e _ => intro ls _ hg; simp [Gram] at hg
   | cast ty k e _ => intro ls _ hg; simp [Gram] at hg
   | index a i _ _ => intro ls _ hg; simp [Gram] at hg
@@ -1347,7 +1521,10 @@ theorem plain_of_gram {L : Ladder} (hL : L.WF = true) (pp : Bool) : ∀ (e : PEx
         | true => simp only [if_true, Bool.and_eq_true] at hg; exact iht _ hsuf hg.1.2.2
         | false => simp only [Bool.false_eq_true, if_false] at hg; exact iht _ (Suffix.refl L) hg.1.2
       simp [plain, ihc _ hsuf.tail hg.1.1, ht, ihe _ hsuf hg.2]
-  | pre op e _ => intro ls _ hg; simp [Gram] at hg
+  | pre op e ih =>
+    intro ls _ hg
+    simp only [Gram, Bool.and_eq_true] at hg
+    simp [plain, ih _ (suffix_nil L) hg.2, (plainPrefix_facts hg.1).2.2.2.2.2.2.2.2.1]
   | post op e _ => intro ls _ hg; simp [Gram] at hg
   | cast ty k e _ => intro ls _ hg; simp [Gram] at hg
   | index a i _ _ => intro ls _ hg; simp [Gram] at hg
@@ -1525,7 +1702,10 @@ theorem gram_minParen {L : Ladder} (hL : L.WF = true) : ∀ (e : PExpr), over L 
         simp only [Option.some.injEq] at this
         rw [← this] at hfl
         exact hbody _ hfl
-  | pre op e _ => intro h; simp [over] at h
+  | pre op e ih =>
+    intro ho ls _
+    simp only [over, Bool.and_eq_true] at ho
+    simp only [minParen, Gram, ho.1, ih ho.2 [] (suffix_nil L), Bool.and_self]
   | post op e _ => intro h; simp [over] at h
   | cast ty k e _ => intro h; simp [over] at h
   | index a i _ _ => intro h; simp [over] at h
@@ -1554,7 +1734,10 @@ theorem strip_minParen (L : Ladder) : ∀ (e : PExpr), over L e = true → ∀ l
     split
     · rename_i heq; rw [heq] at ho; simp at ho
     · split <;> simp [strip, ihc ho.1.1.2, iht ho.1.2, ihe ho.2]
-  | pre op e _ => intro h; simp [over] at h
+  | pre op e ih =>
+    intro ho ls
+    simp only [over, Bool.and_eq_true] at ho
+    simp [minParen, strip, ih ho.2]
   | post op e _ => intro h; simp [over] at h
   | cast ty k e _ => intro h; simp [over] at h
   | index a i _ _ => intro h; simp [over] at h
@@ -1646,7 +1829,7 @@ theorem declWitness_parse {L : Ladder} (hL : L.WF = true) (cpp : Bool)
     · exact lvstop_other_op cpp lv [';'] r (wf_not_op hL hm (by decide)) (by decide) (by decide) a
   have hclaim := main_claim hL cpp e1 rfl L.levels (Suffix.refl L) hg 7 0 0
     [Tok.op ['*'], Tok.var ['a'], Tok.lp] [Tok.rp, Tok.op [';']] []
-    (by decide) (by simp [e1, need]; omega) (ctxOK_op _ _) (by simp) (by simp)
+    (by decide) (by simp [e1, need]; omega) (ctxOK_op _ _ (by decide) (by decide)) (by simp) (by simp)
     (fun t h => by simp only [List.head?_cons, Option.some.injEq] at h; subst h; rfl)
     (fun lv hm => hstop _ _ 0 (Or.inl rfl) lv (tail_mem hm))
     (fun lv below h _ => (hstop _ _ 0 (Or.inl rfl) lv (by rw [h]; simp)).noRA ‹_›)
